@@ -368,3 +368,56 @@ def corr_shrink(harness, driver, r, pred, candidates, tag, budget=150, dargs=())
                 best, improved = rr, True
                 break
     return best
+
+
+# ---------------------------------------------------------------- trust-lsp hook binary
+LSP_TARGET = os.path.join(CACHE, "target-lsp")
+
+
+def lsp_build(timeout=3000):
+    """build /repo's trust-lsp with the verif_hooks feature (the --verif-exec line protocol)"""
+    with Lock("cargo-lsp"):
+        env = env_base()
+        env["CARGO_TARGET_DIR"] = LSP_TARGET
+        rc, out = run(["cargo", "build", "--offline", "-p", "trust-lsp", "--features", GUARD_FEATURE],
+                      cwd=REPO, timeout=timeout, env=env)
+    if rc != 0:
+        raise CheckError("trust-lsp (verif_hooks) build failed:\n" + out[-6000:])
+    return os.path.join(LSP_TARGET, "debug", "trust-lsp")
+
+
+def lsp_exec(binary, requests, timeout=1800):
+    """send JSON requests (list of dicts) through --verif-exec; returns list of replies"""
+    inp = "\n".join(json.dumps(r, ensure_ascii=False) for r in requests) + "\n"
+    p = subprocess.run([binary, "--verif-exec"], input=inp.encode("utf-8"), stdout=subprocess.PIPE,
+                       stderr=subprocess.DEVNULL, timeout=timeout)
+    lines = [l for l in p.stdout.decode("utf-8", "replace").split("\n") if l.strip()]
+    if len(lines) != len(requests):
+        raise CheckError("verif-exec answered %d of %d requests (exit %s)" % (len(lines), len(requests), p.returncode))
+    return [json.loads(l) for l in lines]
+
+
+class Rng:
+    """SplitMix64 — every random choice of the Python-side generators derives from VERIF_SEED"""
+
+    def __init__(self, seed_):
+        self.s = (seed_ ^ 0x9E3779B97F4A7C15) & 0xFFFFFFFFFFFFFFFF
+
+    def next(self):
+        self.s = (self.s + 0x9E3779B97F4A7C15) & 0xFFFFFFFFFFFFFFFF
+        z = self.s
+        z = ((z ^ (z >> 30)) * 0xBF58476D1CE4E5B9) & 0xFFFFFFFFFFFFFFFF
+        z = ((z ^ (z >> 27)) * 0x94D049BB133111EB) & 0xFFFFFFFFFFFFFFFF
+        return z ^ (z >> 31)
+
+    def below(self, n):
+        return self.next() % n
+
+    def range(self, lo, hi):
+        return lo + self.next() % (hi - lo + 1)
+
+    def chance(self, num, den):
+        return self.below(den) < num
+
+    def pick(self, xs):
+        return xs[self.below(len(xs))]
